@@ -350,6 +350,38 @@ func SortedKeys[K Ordered, V any](m map[K]V) []K {
 	return ks
 }
 
+// RangeKeys is what a range-over-map in LIBRARY code iterates: the sorted keys,
+// permuted by decisions of the run (Go's iteration order is unspecified, and
+// code whose result depends on it must be explored under several orders). All
+// decisions zero = sorted order. Small maps get a full permutation, large ones a
+// rotation and an optional reversal.
+func RangeKeys[K Ordered, V any](m map[K]V) []K {
+	ks := SortedKeys(m)
+	n := len(ks)
+	if n < 2 || cur == nil {
+		return ks
+	}
+	if n <= 6 {
+		for i := 0; i < n-1; i++ {
+			j := i + Draw(StrLib, n-i)
+			ks[i], ks[j] = ks[j], ks[i]
+		}
+		return ks
+	}
+	r := Draw(StrLib, n)
+	rev := Draw(StrLib, 2) == 1
+	out := make([]K, 0, n)
+	for i := 0; i < n; i++ {
+		out = append(out, ks[(r+i)%n])
+	}
+	if rev {
+		for i, j := 0, n-1; i < j; i, j = i+1, j-1 {
+			out[i], out[j] = out[j], out[i]
+		}
+	}
+	return out
+}
+
 // WaitQueue is the harness's blocking primitive: code between scheduling
 // points is atomic (one goroutine runs at a time), so no lock is needed.
 // Wait may return spuriously; callers loop on their condition.
